@@ -260,7 +260,7 @@ type scenario struct {
 }
 
 var terminators = []string{"peer-close", "stream-error", "handler-error", "deadline"}
-var forced = []string{"X1a", "X1b", "X2", "X3", "X4", "X5a", "X5b", "X5c", "X6", "X7", "X8"}
+var forced = []string{"X1a", "X1b", "X2", "X3", "X4", "X5a", "X5b", "X5c", "X6", "X7", "X8", "X9"}
 
 func run(c *core.Case) {
 	if c.Index < len(forced)*2 {
@@ -776,6 +776,12 @@ func runStress(c *core.Case) {
 		ir := core.NewRand(core.SubSeed(c.Seed, "C10", c.Index, "inj"))
 		for k, n := 0, 3+ir.Intn(8); k < n; k++ {
 			w.p.Send(fmt.Sprintf("<iq type='get' id='h%d' from='peer@example.org/p'><q xmlns='urn:verif:c10'/></iq>", k))
+			if ir.Intn(3) == 0 {
+				// an IQ nobody answers: the session's own default reply races with
+				// the closes as well
+				w.p.Send(fmt.Sprintf("<iq type='set' id='u%d' from='peer@example.org/p'><q xmlns='urn:verif:c10'/></iq>", k))
+				c.Count("unanswered_iqs_injected", 1)
+			}
 			for i, m := 0, ir.Intn(150); i < m; i++ {
 				runtime.Gosched()
 			}
@@ -1047,6 +1053,49 @@ func runForced(c *core.Case, id string, s2s bool) {
 		w.p.Lib.SetFault(bufconn.NoFault())
 		c.Count("close_under_write_fault", 1)
 		smp.Closers = 2
+	case "X9":
+		// The application holds a token writer in mid-element; a Close queues
+		// behind it; the peer sends an IQ that nobody answers, so that the serve
+		// loop wants the output for its default reply; then the writer is
+		// released.  Whoever gets the lock first, the session must go on reading
+		// until the peer closes: a default reply that can no longer be written is
+		// not a reason for Serve to fail.
+		parkedIn := func(fn string) bool {
+			dl := time.Now().Add(5 * time.Second)
+			for time.Now().Before(dl) {
+				for _, p := range stall.Snapshot(nil) {
+					if p.State == "sync.Mutex.Lock" && strings.Contains(p.Stack, fn) {
+						return true
+					}
+				}
+				time.Sleep(2 * time.Millisecond)
+			}
+			return false
+		}
+		e := w.h.begin("sender", "transmit:TokenWriter", "x9")
+		tw := w.p.S.TokenWriter()
+		st := xml.StartElement{Name: xml.Name{Local: "message"}, Attr: []xml.Attr{{Name: xml.Name{Local: "vm"}, Value: "x9"}}}
+		err := tw.EncodeToken(st)
+		d1 := closeAsync("closer1")
+		if parkedIn("mellium.im/xmpp.(*Session).Close") {
+			c.Count("x9_close_queued_behind_writer", 1)
+		}
+		w.p.Send("<iq type='set' id='u-x9' from='peer@example.org/p'><q xmlns='urn:verif:c10'/></iq>")
+		if parkedIn("mellium.im/xmpp.handleInputStream") {
+			c.Count("x9_default_reply_queued_behind_writer", 1)
+		}
+		if err == nil {
+			err = tw.EncodeToken(st.End())
+		}
+		if cerr := tw.Close(); err == nil {
+			err = cerr
+		}
+		out, d := classifyErr(err)
+		w.h.end(e, out, d)
+		<-d1
+		w.p.Send("<message id='x9-after'><body>still served</body></message>")
+		smp.Closers = 1
+		c.Count("close_vs_default_reply_scenarios", 1)
 	case "X7":
 		// A sender's context ends while its element is being written (the common
 		// "defer cancel()" idiom, moved a few microseconds earlier).  The helper
@@ -1144,7 +1193,7 @@ func Prop() *core.Prop {
 		Level: core.Exploration,
 		Race:  true,
 		Units: "porcupine_ops", // operations (close, transmit, Serve) placed by the checker
-		Rule:  "the first 22 cases are the forced scenarios X1a/X1b/X2/X3/X4 (orderings at the close.enter / senderr.enter yield points) X5a/X5b/X5c (the transport fails, entirely, after 5 bytes, or with a short write of 5 bytes, exactly on the write of the closing tag) and X6 (a transport with synchronous writes in both directions: Close blocked on the closing tag while the peer sends two more stanzas before reading) and X7 (a sender's context ends during its write and the write-deadline helper is parked at wdl.armed while the handler answers a peer IQ) and X8 (SetCloseDeadline replaces the input context while the serve loop is parked at serve.loop holding the old one), each c2s and s2s; the rest are stress histories on one served session (a third of them on a layered transport: a plain io.ReadWriter around the connection installed during negotiation, deadlines proxied): 0-3 closers (1-3 Close calls each, sometimes SetCloseDeadline), 1-4 senders drawing from 13 transmit entry points, peer-injected IQs answered by the handler, and one terminator from {peer close tag, peer stream error, handler error, silence + 50 ms close deadline} issued early or after the actors; afterwards every entry point is called once more on the closed session. Oracles: closing-tag count and bytes after it on the peer side; porcupine check of the recorded history against a two-state closable-log model; marker-on-wire side conditions; State()/TokenReader after Serve; Serve's return per terminator. Distinct = (kind, terminator, closers, some transmit overlapped a Close?, some transmit began after a Close returned?, tags) and the observed interleaving of each history: the logical-clock order of the call/return boundaries of every explicit Close (C) and of Serve's own shutdown (S), with the transmits classified as before / overlapping / after the closes and by outcome (signatures order/…).",
+		Rule:  "the first 24 cases are the forced scenarios X1a/X1b/X2/X3/X4 (orderings at the close.enter / senderr.enter yield points) X5a/X5b/X5c (the transport fails, entirely, after 5 bytes, or with a short write of 5 bytes, exactly on the write of the closing tag) and X6 (a transport with synchronous writes in both directions: Close blocked on the closing tag while the peer sends two more stanzas before reading) and X7 (a sender's context ends during its write and the write-deadline helper is parked at wdl.armed while the handler answers a peer IQ) and X8 (SetCloseDeadline replaces the input context while the serve loop is parked at serve.loop holding the old one) and X9 (a Close and the serve loop's default reply to an unanswered IQ both queue behind a token writer the application holds in mid-element), each c2s and s2s; the rest are stress histories on one served session (a third of them on a layered transport: a plain io.ReadWriter around the connection installed during negotiation, deadlines proxied): 0-3 closers (1-3 Close calls each, sometimes SetCloseDeadline), 1-4 senders drawing from 13 transmit entry points, peer-injected IQs answered by the handler or left to the session's default reply, and one terminator from {peer close tag, peer stream error, handler error, silence + 50 ms close deadline} issued early or after the actors; afterwards every entry point is called once more on the closed session. Oracles: closing-tag count and bytes after it on the peer side; porcupine check of the recorded history against a two-state closable-log model; marker-on-wire side conditions; State()/TokenReader after Serve; Serve's return per terminator. Distinct = (kind, terminator, closers, some transmit overlapped a Close?, some transmit began after a Close returned?, tags) and the observed interleaving of each history: the logical-clock order of the call/return boundaries of every explicit Close (C) and of Serve's own shutdown (S), with the transmits classified as before / overlapping / after the closes and by outcome (signatures order/…).",
 		Assumptions: []string{
 			"a transmit that overlaps a Close in time may land on either side of the closing tag",
 			"handler replies are buffered until the handler returns, so their on-wire side condition is not demanded; their error value is",
@@ -1158,7 +1207,7 @@ func Prop() *core.Prop {
 			return len(forced)*2 + 70
 		},
 		Run: run,
-		Require: []string{"forced_scenarios", "stress_histories", "close_under_write_fault", "close_returns_with_wire_snapshot", "synchronous_transport_closes", "cancelled_sender_deadline_scenarios", "close_deadline_during_loop_scenarios", "layered_transport_histories", "layered_transport_close_deadline", "yield:close.enter", "yield:senderr.enter", "transmits_overlapping_a_close",
+		Require: []string{"forced_scenarios", "stress_histories", "close_under_write_fault", "close_returns_with_wire_snapshot", "synchronous_transport_closes", "cancelled_sender_deadline_scenarios", "close_deadline_during_loop_scenarios", "close_vs_default_reply_scenarios", "unanswered_iqs_injected", "x9_close_queued_behind_writer", "x9_default_reply_queued_behind_writer", "layered_transport_histories", "layered_transport_close_deadline", "yield:close.enter", "yield:senderr.enter", "transmits_overlapping_a_close",
 			"transmits_begun_after_a_close_returned", "late_transmits", "porcupine_checks",
 			"serve_returned:peer-close", "serve_returned:stream-error", "serve_returned:handler-error", "serve_returned:deadline"},
 		ReplayRepeats: 10,
